@@ -294,6 +294,8 @@ def build(tier, seed):
     from props import C01append
     obs.extend(C01append.build(fbn))
     obs.extend(C01append.build_size(fbn))
+    from props import C01ctor
+    obs.extend(C01ctor.build(fbn))
     obs.append(vprop.enum_ob("C01.native.enum", FNL + FNC, lambda: range(8), _check_native,
                              "bounded: native numeric path - random gates on random placements vs the element-wise definition (n<=5, arity<=4), built-in circuits incl. H, "
                              "the same wrapped gates with equal parameters used twice in one process, SymbolicSimulator vs to_unitary; concatenation of all pairs from a pool incl. operation-less "
